@@ -119,7 +119,7 @@ pub fn check_cfg(cfg: &Cfg) -> Result<u64, (String, String)> {
 }
 
 pub fn space(thorough: bool) -> Vec<Cfg> {
-    let steps = [
+    let mut steps = vec![
         Duration::ZERO,
         Duration::from_nanos(1),
         Duration::from_millis(1),
@@ -128,12 +128,16 @@ pub fn space(thorough: bool) -> Vec<Cfg> {
         Duration::MAX / 2,
         Duration::MAX,
     ];
-    let factors = [0u64, 1, 2, 3, 10, 1 << 16, 1 << 32, u64::MAX];
+    let mut factors = vec![0u64, 1, 2, 3, 10, 1 << 16, 1 << 32, u64::MAX];
     let mut attempts = vec![0u32, 1, 2, 3, 21, 64, 65, 100, 1000, u32::MAX];
+    let mut maxes = vec![None, Some(Duration::ZERO), Some(Duration::from_secs(1)), Some(Duration::from_secs(3600)), Some(Duration::MAX)];
     if thorough {
-        attempts.extend([4, 5, 33, 128, 129, 4000]);
+        steps.extend([Duration::from_nanos(999_999_999), Duration::from_micros(250), Duration::new(1, 1), Duration::from_secs(u32::MAX as u64), Duration::new(u64::MAX / 3, 5)]);
+        factors.extend([4, 7, 1000, (1 << 31) + 1, 1 << 33, u64::MAX - 1]);
+        attempts = (0..=70).collect();
+        attempts.extend([95, 100, 127, 128, 129, 1000, 4000, u32::MAX - 1, u32::MAX]);
+        maxes.extend([Some(Duration::from_nanos(1)), Some(Duration::from_millis(2)), Some(Duration::MAX / 2)]);
     }
-    let maxes = [None, Some(Duration::ZERO), Some(Duration::from_secs(1)), Some(Duration::from_secs(3600)), Some(Duration::MAX)];
     let mut laws = vec![Law::Constant, Law::Linear];
     laws.extend(factors.iter().map(|&f| Law::Exponential(f)));
     let mut v = Vec::new();
@@ -189,7 +193,7 @@ pub fn run(tier: &str) {
     let coverage = json!({
         "evaluations": sp.len(),
         "distinct_nontrivial": nontrivial,
-        "rule": "full grid {constant, linear, exponential(f) for f in {0,1,2,3,10,2^16,2^32,u64::MAX}} x 7 steps (0, 1ns, 1ms, 1s, 2^32 s, Duration::MAX/2, Duration::MAX) x attempts {0,1,2,3,21,64,65,100,1000,u32::MAX(first 100 items)} (+6 more in thorough) x max delay {none, 0, 1s, 1h, Duration::MAX}; each schedule drained under catch_unwind in a build with overflow checks on, every item compared with the law evaluated in saturating u128 nanoseconds. non-trivial = at least one attempt",
+        "rule": "full grid {constant, linear, exponential(f) for f in {0,1,2,3,10,2^16,2^32,u64::MAX}} x 7 steps (0, 1ns, 1ms, 1s, 2^32 s, Duration::MAX/2, Duration::MAX) x attempts {0,1,2,3,21,64,65,100,1000,u32::MAX(first 100 items)} x max delay {none, 0, 1s, 1h, Duration::MAX} [thorough: 12 steps x 14 factors x attempts {0..=70,95,100,127,128,129,1000,4000,u32::MAX-1,u32::MAX} x 8 maxima]; each schedule drained under catch_unwind in a build with overflow checks on, every item compared with the law evaluated in saturating u128 nanoseconds. non-trivial = at least one attempt",
         "exhaustive": true,
         "schedule_items_checked": items,
         "samples": samples,
